@@ -183,8 +183,16 @@ func toOps(ls []opLine) []porcupine.Operation {
 	return out
 }
 
-// shrink returns the shortest prefix (in call order) of an illegal partition that is still illegal.
+// shrink returns a short prefix (in call order) of an illegal partition that is still illegal.
 func shrink(m porcupine.Model, ls []opLine, timeout time.Duration) []opLine {
+	if len(ls) <= 600 { // linear scan: prefixes are not monotone, the first illegal one is the most readable
+		for n := 1; n < len(ls); n++ {
+			if porcupine.CheckOperationsTimeout(m, toOps(ls[:n]), timeout) == porcupine.Illegal {
+				return ls[:n]
+			}
+		}
+		return ls
+	}
 	lo, hi := 1, len(ls) // invariant: prefix hi is illegal
 	for lo < hi {
 		mid := (lo + hi) / 2
